@@ -1108,6 +1108,23 @@ func (m *Machine) nodeTypeAssert(itf Iface, asserted types.Type) (bool, Value) {
 		}
 		return false, nil
 	}
+	// a concrete scalar type: the assertion holds iff it is the node's dynamic type
+	if b, ok := asserted.Underlying().(*types.Basic); ok {
+		t := m.nodeGoType(n)
+		if t == nil || !types.Identical(t, asserted) {
+			return false, nil
+		}
+		switch {
+		case b.Kind() == types.Bool:
+			return true, unTerm(m.simp(n.B))
+		case b.Info()&types.IsString != 0:
+			return true, &AStr{T: n.Str}
+		case b.Info()&types.IsInteger != 0:
+			return true, m.intVal(n.IVal)
+		case b.Info()&types.IsFloat != 0:
+			return true, n.Float()
+		}
+	}
 	unsupported("type assertion of symbolic node to %s", asserted)
 	return false, nil
 }
